@@ -70,6 +70,23 @@ func checkC02(c statCase) (Outcome, error) {
 	default:
 		return out, fmt.Errorf("unknown test %q", c.Test)
 	}
+	if n%8 == 0 && n > 0 {
+		// the byte-oriented entry points of the same three tests, on the harness's own packing
+		data := gen.Pack(bits)
+		var bp, bq float64
+		switch c.Test {
+		case "runs":
+			bp, bq = rn.RunsTestBytes(data)
+		case "runsDist":
+			bp, bq = rn.RunsDistributionTestBytes(data)
+		case "longest":
+			bp, bq = rn.LongestRunOfOnesInABlockTestBytes(data, c.Flag)
+		}
+		out.Classes = append(out.Classes, "also-bytes-entry")
+		if err := cmpPQ(c.Test+"-bytes", what+" (byte entry point)", bp, bq, wp, wq, "C02"); err != nil {
+			return out, err
+		}
+	}
 	out.NonTrivial = len(rs) >= 3 && (nontrivialP(wp) || c.Test == "runs")
 	return out, cmpPQ(c.Test, what, gp, gq, wp, wq, "C02")
 }
@@ -99,7 +116,10 @@ func genC02(t *rapid.T) statCase {
 			n = 750000 + rapid.IntRange(-2, 20000).Draw(t, "dn")
 		}
 	}
-	fams := []string{"explicit", "uniform", "biased", "constant", "alternating", "periodic", "sparse", "markov", "transition", "longrun", "runs", "runs", "markov", "balanced"}
+	fams := []string{"explicit", "uniform", "biased", "constant", "alternating", "periodic", "sparse", "markov", "transition", "longrun", "runs", "runs", "markov", "balanced", "bytewords", "bytewords"}
+	if rapid.IntRange(0, 2).Draw(t, "bytealigned") == 0 && n >= 128 {
+		n = n / 8 * 8
+	}
 	c.Seq = gen.DrawSeq(t, n, fams)
 	if test == "runsDist" && rapid.IntRange(0, 2).Draw(t, "pink") == 0 {
 		k := runsCutoff(n)
